@@ -1,10 +1,10 @@
 """Folds of core/layer.py::Layer (interpreted), plot/parser.py::parse_layer and get_norm over option tokens."""
 from __future__ import annotations
 
-from ..models import ModelEval, PyObj, Marker, Raised, fold
+from ..models import ModelEval, PyObj, Raised
 from ..peval import Model, Unsupported, ProgramRaised
 from ..source import AnalysisError
-from .core_models import RawTok, ArrTok, core_hooks, make_vector, vector_components
+from .core_models import ArrTok, core_hooks, make_vector, vector_components
 
 ERR = (Unsupported, AnalysisError)
 LAYER_Q = "core/layer.py::Layer"
